@@ -77,6 +77,33 @@ def o1(W, ob):
         loop_done = every_disjunct_has(g, lambda a: a[0] == 'is' and a[2] == 'None' and 'handles' in a[1])
         ob.check(nz and loop_done, 'with_num_players|constraint', 'with_num_players stores only a non-zero value after revalidating every registered handle',
                  'with_num_players stores num_players under `%s`' % dnf_str(g)[:200], where(f, w['line']))
+    # every registered handle whose rule can have become violated is revalidated: the call may be skipped for a kind only in the direction in which that kind's
+    # range rule cannot break (players: handle < old <= new when the count is not lowered; spectators: handle >= old >= new when it is not raised)
+    VEC = (('arg2', 1), ('self.num_players', -1))
+    KINDS = ('Local', 'Remote', 'Spectator')
+    for t in vals:
+        g = G.guard(t.bb)
+        for kind in KINDS:
+            def covers(c):
+                for a_ in c:
+                    if a_[0] == 'is' and a_[2] in KINDS:
+                        if (a_[2] == kind) != bool(a_[3]):
+                            return False
+                        continue
+                    if a_[0] == 'lin' and a_[1] == VEC:
+                        lo_, hi_ = a_[2], a_[3]
+                        if kind == 'Spectator' and not (hi_ is None and (lo_ is None or lo_ <= 1)):
+                            return False
+                        if kind != 'Spectator' and not (lo_ is None and (hi_ is None or hi_ >= -1)):
+                            return False
+                        continue
+                    if 'self.num_players' in str(a_):
+                        return False
+                return True
+            ob.check(any(covers(c) for c in g), 'with_num_players|revalidates|%s' % kind,
+                     'with_num_players revalidates %s handles whenever the new count can have invalidated them' % kind,
+                     'with_num_players skips the revalidation of %s handles in the direction in which their range rule can break (call guard: %s)' % (kind, dnf_str(g)[:240]),
+                     where(f, t.line))
     for t in vals:
         a3 = key(W.ctx(f).expr_operand(t.args[2]))
         ob.check(a3 == 'arg2', 'with_num_players|revalidates-against-new', 'registered handles are revalidated against the new player count',
